@@ -301,9 +301,25 @@ func cmdVerify(args []string) int {
 	}
 	var pend []pending
 	t1 := time.Now()
+	// contracts with bounding clauses get a second, bounded stand-in run
+	if *bounded == 0 {
+		var more []string
+		for _, key := range keys {
+			if c := db.Funcs[key]; c != nil && (len(c.Bounded) > 0 || c.BoundedOnly) {
+				more = append(more, key+"#bounded")
+			}
+		}
+		keys = append(keys, more...)
+	}
 	for _, key := range keys {
+		boundedRun := strings.HasSuffix(key, "#bounded")
+		unitName := key
+		key = strings.TrimSuffix(key, "#bounded")
 		c := db.Funcs[key]
-		ur := &UnitResult{Unit: key, Func: key}
+		if c != nil && c.BoundedOnly && !boundedRun && *bounded == 0 {
+			continue
+		}
+		ur := &UnitResult{Unit: unitName, Func: key, Bounded: boundedRun}
 		rr.Units = append(rr.Units, ur)
 		if c == nil {
 			ur.Error = "contract-stale: no contract for " + key
@@ -317,9 +333,17 @@ func cmdVerify(args []string) int {
 			exit = 2
 			continue
 		}
-		x := newExec(p, db, shortUnit(key))
+		x := newExec(p, db, shortUnit(unitName))
 		if fn.Pkg != nil {
 			x.useOpaque(fn.Pkg.Pkg.Path())
+		}
+		if boundedRun {
+			x.boundedRun = true
+			x.boundN = c.BoundN
+			if x.boundN == 0 {
+				x.boundN = 4
+			}
+			x.maxPaths = 20000
 		}
 		x.pruner = newPruner()
 		if *bounded > 0 {
@@ -335,7 +359,7 @@ func cmdVerify(args []string) int {
 			continue
 		}
 		ur.FrameChecked = c.HasAssign
-		dir := filepath.Join(*out, sanitize(shortUnit(key)))
+		dir := filepath.Join(*out, sanitize(shortUnit(unitName)))
 		var files []string
 		func() {
 			defer func() {
